@@ -87,11 +87,33 @@ static int sch_cli(sess_t *s) {
 		case 0: log_rc(s, "gen", cp_cli_gen(s->b[0], s->b[1], s->b[2], s->g2[0], s->g2[1], s->g2[2])); return 1;
 		case 1:
 			bn_rand_mod(s->b[3], ord);
-			log_rc(s, "sig", cp_cli_sig(s->g1[0], s->g1[1], s->g1[2], s->g1[3], s->g1[4], s->msg, s->msg_len, s->b[3],
-					s->b[0], s->b[1], s->b[2]));
+			{
+				int rc_ = cp_cli_sig(s->g1[0], s->g1[1], s->g1[2], s->g1[3], s->g1[4], s->msg, s->msg_len, s->b[3],
+						s->b[0], s->b[1], s->b[2]);
+				s->flag[3] = rc_ == RLC_OK;
+				log_rc(s, "sig", rc_);
+			}
 			return 1;
 		case 2: {
 			int ok = 1;
+			fault_t *fm = find_fault(s, "forge");
+			if (fm && !strcmp(fm->kind, "v_moved") && s->flag[3] && s->msg_len > 0 && !bn_is_zero(s->b[3])) {
+				/* an accepted signature on (m, r) moved to another message m' without the key: B' = B + ((m - m') / r) b
+				 * leaves the last equation e(a + m b + r B, X) = e(c, g) satisfied; only the check that ties B to A
+				 * (e(A, Y) = e(B, g)) tells them apart */
+				bn_read_bin(s->b[14], s->msg, s->msg_len); bn_mod(s->b[14], s->b[14], ord);
+				s->msg[s->msg_len - 1] ^= (uint8_t)(1 + fm->a % 255);
+				bn_read_bin(s->b[15], s->msg, s->msg_len); bn_mod(s->b[15], s->b[15], ord);
+				bn_sub(s->b[14], s->b[14], s->b[15]); bn_mod(s->b[14], s->b[14], ord);
+				bn_mod_inv(s->b[15], s->b[3], ord);
+				bn_mul(s->b[14], s->b[14], s->b[15]); bn_mod(s->b[14], s->b[14], ord);
+				g1_t tmp_;
+				g1_null(tmp_); g1_new(tmp_);
+				g1_mul(tmp_, s->g1[2], s->b[14]);
+				g1_add(s->g1[3], s->g1[3], tmp_); g1_norm(s->g1[3], s->g1[3]);
+				g1_free(tmp_);
+				tr_printf("NOTE %d coordinated-message-moved\n", s->sid);
+			}
 			ok &= xmit_g2(s, "x", s->g2[5], s->g2[0], (int)s->opt[1]);
 			ok &= xmit_g2(s, "y", s->g2[6], s->g2[1], (int)s->opt[1]);
 			ok &= xmit_g2(s, "z", s->g2[7], s->g2[2], (int)s->opt[1]);
